@@ -159,6 +159,8 @@ pub struct MapEng<'c, KD: Kind, const N: usize> {
     /// a container is malformed (duplicate keys, len disagrees with iteration, dead element) and
     /// the armed property does not own that: the rest of the case is discarded
     pub abandon: bool,
+    /// an iterator / drain was forgotten in the op in flight: what it held may have leaked
+    pub may_leak: bool,
     /// the current op exercised an overflow / capacity path (C03 scope)
     pub op_overflow: bool,
     pub ever_overflow: bool,
@@ -211,6 +213,7 @@ impl<'c, KD: Kind, const N: usize> MapEng<'c, KD, N> {
             cur_target: 0,
             poisoned: false,
             abandon: false,
+            may_leak: false,
             op_overflow: false,
             ever_overflow: false,
             op_unchecked: false,
@@ -324,6 +327,7 @@ impl<'c, KD: Kind, const N: usize> MapEng<'c, KD, N> {
             p_leak = p_leak.and(Prop::C11);
         }
         let mut stored: Vec<u32> = Vec::new();
+        let mut stored_n: i64 = 0;
         let mut malformed = false;
         for w in 0..2 {
             // the slot the op did not address must be untouched: independence of clones (C15)
@@ -339,6 +343,7 @@ impl<'c, KD: Kind, const N: usize> MapEng<'c, KD, N> {
                     return;
                 }
             };
+            stored_n += obs.len() as i64;
             let len = slot.c.m.len();
             let cap = slot.c.m.capacity();
             if obs.len() != len || len > cap || obs.iter().any(|o| !o.live) {
@@ -487,6 +492,22 @@ impl<'c, KD: Kind, const N: usize> MapEng<'c, KD, N> {
                 }
                 cx.chk(p_leak, ok, "leak", || msg);
             }
+        }
+        if tl::take_may_leak() {
+            self.may_leak = true;
+        }
+        if KD::COUNTS_LIVE {
+            // zero-sized payload with drop glue: ownership by counting (created - destroyed)
+            let cx = &mut *self.cx;
+            let (lk, lv) = KD::live();
+            let (sk, sv) = (stored_n, if true { stored_n } else { 0 });
+            cx.chk(p_ledger, lk >= sk && lv >= sv, "count-double-drop", || format!("{sk} keys / {sv} values are stored but only {lk} / {lv} objects are alive: something was destroyed twice (or a dead slot is counted as live)"));
+            if faulted || self.may_leak {
+                KD::live_forgive(sk, sv);
+            } else {
+                cx.chk(p_leak, lk <= sk && lv <= sv, "count-leak", || format!("{lk} keys / {lv} values are alive but only {sk} / {sv} are stored: something was never destroyed"));
+            }
+            self.may_leak = false;
         }
         {
             let mis = tl::take_misaligned();
@@ -682,6 +703,23 @@ impl<'c, KD: Kind, const N: usize> MapEng<'c, KD, N> {
                 format!("{} object(s) never destroyed, e.g. #{}", left.len(), left[0])
             });
         }
+        if KD::COUNTS_LIVE && !self.poisoned {
+            let mut elig = PS::of(Prop::C02).and(Prop::C05);
+            if self.ever_faulted {
+                elig = elig.and(Prop::C04);
+            }
+            if self.ever_overflow {
+                elig = elig.and(Prop::C03);
+            }
+            if self.ever_cloned {
+                elig = elig.and(Prop::C15);
+            }
+            let (lk, lv) = KD::live();
+            self.cx.chk(P_LEDGER.inter(elig), lk >= 0 && lv >= 0, "count-double-drop", || format!("after everything was dropped the live counts are {lk} keys / {lv} values: something was destroyed twice"));
+            if !self.ever_faulted && !self.may_leak {
+                self.cx.chk(PS::of(Prop::C02).and(Prop::C03).and(Prop::C15).inter(elig), lk <= 0 && lv <= 0, "count-leak-at-end", || format!("{lk} key(s) / {lv} value(s) never destroyed"));
+            }
+        }
         if self.ever_faulted {
             self.cx.bump(S::fault_fired);
         }
@@ -697,6 +735,8 @@ pub fn unchecked_liar_case(case: &Case) -> bool {
 /// Run one maphist case for a fixed kind and capacity.
 pub fn run<KD: Kind, const N: usize>(case: &Case, cx: &mut Ctx) {
     tl::ledger_reset();
+    KD::live_reset();
+    let _ = tl::take_may_leak();
     cx.engine = "maphist";
     if case.prop == Prop::C17 || (unchecked_liar_case(case) && KD::TRACKED) {
         let bits: Vec<u8> = case.ops.iter().flat_map(|o| [o[2], o[3]]).collect();
@@ -743,7 +783,7 @@ pub fn run<KD: Kind, const N: usize>(case: &Case, cx: &mut Ctx) {
 
 /// Dispatch on (kind, capacity).
 pub fn run_dyn(case: &Case, cx: &mut Ctx) {
-    use mmv_base::kinds::{Large, NoDrop, PathK, Plain, Str, Tagged, Tracked, ZstBoth, ZstKey, ZstVal};
+    use mmv_base::kinds::{Large, NoDrop, PathK, Plain, Str, Tagged, Tracked, ZstBoth, ZstDrop, ZstKey, ZstVal};
     let n = mmv_base::capacity_of(case);
     match case.kind % mmv_base::case::NKINDS {
         0 => mmv_base::by_cap!(run, Tracked, n, case, cx, [0, 1, 2, 3, 4, 6, 9, 17, 32, 33, 64, 70]),
@@ -755,6 +795,7 @@ pub fn run_dyn(case: &Case, cx: &mut Ctx) {
         6 => mmv_base::by_cap!(run, NoDrop, n, case, cx, [0, 1, 2, 3, 4, 6]),
         7 => mmv_base::by_cap!(run, ZstBoth, n, case, cx, [0, 1, 2]),
         8 => mmv_base::by_cap!(run, Tagged, n, case, cx, [0, 1, 2, 3, 4, 6, 9]),
+        10 => mmv_base::by_cap!(run, ZstDrop, n, case, cx, [0, 1, 2]),
         _ => mmv_base::by_cap!(run, PathK, n, case, cx, [0, 1, 2, 3, 4, 6]),
     }
 }
